@@ -74,7 +74,9 @@ def rust_unescape(s):
 
 
 FIELD_RE = re.compile(r'format ! \("\{\}\{\}\{\}: \{\}," , ' + _LIT + " , " + _LIT + " ,")
-VARIANT_UNIT_RE = re.compile(r'format ! \("\\"\{\}\\"" , ' + _LIT + r"\)")
+# a unit variant: format!("\"{}\"", <name>) where <name> is the literal itself or an expression around it
+# (`::std::string::ToString::to_string(&("name")).replace(..)` since names are escaped at run time)
+VARIANT_UNIT_RE = re.compile(r'format ! \("\\"\{\}\\"" , (?::: std :: string :: ToString :: to_string \(& \()?' + _LIT)
 
 
 def field_names(tokens):
